@@ -16,7 +16,8 @@ LEVEL = 'exploration'
 EXHAUSTIVE = True
 TECHNIQUE = 'exhaustive enumeration of finalisation histories (close / context-manager exit, length 1..3) x writer class x format x file kind, plus Hypothesis record lists; read-back oracle and byte-stability after the first finalisation'
 RULE = ('Histories write* followed by every sequence over {close(), context-manager exit} of length 1..3 (14 sequences; the '
-        'first exit is a real with-statement, later ones explicit __exit__ calls) x {VbsWriter, IpmWriter} x {VBS, 1014} x '
+        'first exit is a real with-statement holding the writes, later ones explicit __exit__ calls; plus 39 sequences over {close(), '
+        '__exit__, a whole empty with-block} run after plain writes, so that a with-block is also entered after a finalisation) x {VbsWriter, IpmWriter} x {VBS, 1014} x '
         '{BytesIO, real w+b file} x record lists (boundary list enumerated, further lists from Hypothesis). Oracle: a fresh '
         'reader from offset 0 returns exactly the records written, and the file bytes after the first finalisation are '
         'identical after every later one. Non-trivial = >= 2 finalisations with >= 1 record; distinct by (sequence, class, '
@@ -25,6 +26,8 @@ ASSUMPTIONS = ['the wrapped file stays open after close() (the documented usage 
                'IpmWriter records are compared as the bytes iso8583.dumps produces for each message']
 
 SEQS = [''.join(s) for n in (1, 2, 3) for s in itertools.product('CX', repeat=n)]
+# second family: the records are written first, then every sequence over {close(), explicit __exit__, a whole `with w: pass` block}
+SEQS_AFTER = ['>' + ''.join(s) for n in (1, 2, 3) for s in itertools.product('CXW', repeat=n)]
 BOUNDARY_LISTS = [[], [1], [5, 1008], [1012], [1004], [1008, 1], [2024, 3], [6000], [28, 34], [1000, 1000, 1000]]
 
 
@@ -66,6 +69,19 @@ def run_history(seq, records, ipm, blocked, real, scratch):
         w = mciipm.IpmWriter(f, encoding='latin_1', blocked=blocked) if ipm else mciipm.VbsWriter(f, blocked=blocked)
         snaps = []
         first_x = seq.find('X')
+        if seq.startswith('>'):
+            for r in records:
+                w.write(dict(r) if ipm else r)
+            for tok in seq[1:]:
+                if tok == 'C':
+                    w.close()
+                elif tok == 'X':
+                    w.__exit__(None, None, None)
+                else:
+                    with w:
+                        pass
+                snaps.append(snap())
+            return snaps, expected
         if first_x >= 0:
             with w as ww:
                 for r in records:
@@ -103,7 +119,7 @@ def check(seq, records, ipm, blocked, real, scratch):
     except Exception as ex:
         return exc_sig('readback-raises', ex), f'history {seq} on {name}: reading the result raised {ex!r}'
     if back != expected:
-        return ('readback:' + ('multi' if len(seq) > 1 else 'single'),
+        return ('readback:' + ('multi' if len(seq.lstrip('>')) > 1 else 'single'),
                 f'history write x{len(records)} then {seq} on {name}: wrote record lengths {[len(e) for e in expected][:6]}, '
                 f'file reads back as {[len(b) for b in back][:6]}')
     for i, s in enumerate(snaps[1:], 1):
@@ -130,9 +146,9 @@ def enumerate_histories(ctx, ipm, blocked, real):
     try:
         for lens in BOUNDARY_LISTS:
             records = ipm_records(lens) if ipm else [c03.content('pos', k) for k in lens]
-            for seq in SEQS:
+            for seq in SEQS + SEQS_AFTER:
                 n += 1
-                if len(seq) >= 2 and lens:
+                if len(seq.lstrip('>')) >= 2 and lens:
                     nt += 1
                 res = check(seq, records, ipm, blocked, real, scratch)
                 if res:
@@ -140,7 +156,7 @@ def enumerate_histories(ctx, ipm, blocked, real):
     finally:
         scratch.cleanup()
     ctx.bulk(n, nontrivial_distinct=nt, label=f"{'ipm' if ipm else 'vbs'}/{'1014' if blocked else 'plain'}/{'file' if real else 'mem'}")
-    ctx.enumerated('all 14 finalisation sequences over {close, exit} of length 1..3 x 10 record lists x writer class x format x file kind')
+    ctx.enumerated('all 14 finalisation sequences over {close, exit} of length 1..3 (writes inside the with block) and all 39 sequences over {close, __exit__, whole with-block} of length 1..3 after the writes, x 10 record lists x writer class x format x file kind')
     if not real and not ipm:
         ctx.sample({'history': 'with writer: write(1008 bytes); write(1 byte); close()  [then leaving the with block]', 'seq': 'CX', 'blocked': blocked})
 
@@ -152,12 +168,12 @@ def hyp_histories(ctx, n):
         lens, seq, ipm, blocked, real = v
         records = ipm_records(lens) if ipm else [c03.content('pos', k) for k in lens]
         ctx.case(key=harness.digest((lens, seq, ipm, blocked, real)), nontrivial=len(seq) >= 2 and bool(lens),
-                 labels=['hyp', 'multi-finalise' if len(seq) > 1 else 'single-finalise', 'real-file' if real else 'BytesIO'])
+                 labels=['hyp', 'multi-finalise' if len(seq.lstrip('>')) > 1 else 'single-finalise', 'real-file' if real else 'BytesIO'])
         res = check(seq, records, ipm, blocked, real, scratch)
         if res:
             ctx.fail(res[0], {'seq': seq, 'lens': lens, 'ipm': ipm, 'blocked': blocked, 'real': real}, res[1])
     strat = st.tuples(st.lists(st.one_of(st.sampled_from([1, 4, 1004, 1008, 1012, 2024]), st.sampled_from(range(1, 3001))), max_size=8),
-                      st.sampled_from(SEQS + ['CCCC', 'XCXC', 'CXCX', 'XXXX']), st.booleans(), st.booleans(), st.booleans())
+                      st.sampled_from(SEQS + SEQS_AFTER + ['CCCC', 'XCXC', 'CXCX', 'XXXX', '>WWWW', '>CWCW', '>WCXW']), st.booleans(), st.booleans(), st.booleans())
     try:
         harness.drive(ctx, strat, body, n, salt='hist')
     finally:
